@@ -507,7 +507,9 @@ func (s *sys) diagnose(cands []int) string {
 			if st&1 == 0 {
 				return " [cause: InvalidateBlock/gives-up-after-choosing-a-header-only-tip]"
 			}
-			if !w.chainValid[j] && st&(4|8) == 0 {
+			// (after the failed attempt the tip carries the validate-failed flag, so
+			// the flags cannot be used to tell whether it was validated before)
+			if !w.chainValid[j] && !s.underManual(j) {
 				return " [cause: InvalidateBlock/gives-up-after-choosing-a-not-yet-validated-invalid-tip]"
 			}
 		}
